@@ -274,6 +274,22 @@ def expectedFields : List (String × String × Role × List String) := [
   ("TdxModulePolicy", "MrSignerSeam", .policy, ["TdxModulePolicy.Matches"])
 ]
 
+/-- Expected statement skeleton of (*TEEFeaturesSGX).ApplyDefaultConstraints (go/common/node/tee.go):
+under `DefaultPolicy != nil`, three INDEPENDENT steps at the same depth - allocate the policy if
+nil, fill IAS if unset, fill PCS if unset and the feature is on - exactly the three `let`s of
+`OasisModel.Pcs.applyDefaults`. -/
+def expectedApplyDefaults : List (String × String) := [
+  ("if@0", "fs.DefaultPolicy != nil"),
+  ("if@1", "sc.Policy == nil"),
+  ("assign@2", "sc.Policy = &quote.Policy{}"),
+  ("if@1", "sc.Policy.IAS == nil"),
+  ("assign@2", "sc.Policy.IAS = fs.DefaultPolicy.IAS"),
+  ("if@1", "sc.Policy.PCS == nil && fs.PCS"),
+  ("assign@2", "sc.Policy.PCS = fs.DefaultPolicy.PCS"),
+  ("if@0", "sc.MaxAttestationAge == 0"),
+  ("assign@1", "sc.MaxAttestationAge = fs.DefaultMaxAttestationAge")
+]
+
 /-- A role that claims a read must have one in `Verify`-side code and vice versa. -/
 def roleConsistent (r : Role) (uses : List String) : Bool :=
   match r with
